@@ -232,7 +232,35 @@ def predictTrip (n : Nat) (cfg : WrapCfg) (d : Dj) : Option Nat :=
     | _, _ => st) (1, false, none)
   trip
 
-def judgeWrap (id : String) (n : Nat) (cfg : WrapCfg) (arg res : Elem) : String :=
+/-! ### the interval model against `Box::wrap_assign` (boxes, overflow wraps, no guard) -/
+
+/-- the interval of `x` described by the unary rows on `x` -/
+def unaryItv (cs : List Con) (x : Nat) : Itv :=
+  cs.foldl (fun (I : Itv) c =>
+    if lastVar c.coeffs != x + 1 || !((c.coeffs.take x).all (· == 0)) then I else
+      let a := c.coeffs.getD x 0
+      let b : Rat := mkRat (-c.k) a.natAbs * (if a < 0 then -1 else 1)   -- -k/a
+      if a > 0 then { I with lo := Itv.maxLo I.lo (some (b, c.strict)) }
+      else { I with hi := Itv.minHi I.hi (some (b, c.strict)) }) ⟨none, none⟩
+
+def constFalse (cs : List Con) : Bool := cs.any fun c => lastVar c.coeffs == 0 && !c.holdsAt [] 1
+
+def itvEq (I J : Itv) : Bool := (I.isEmpty && J.isEmpty) || (I == J)
+
+/-- `written` / `prefix` / `none`: does the model `boxWrap` give exactly the real result (`written`), or
+    only with the comparison `Interval::wrap_assign` had before the fix of defect 12 (`prefix`)? -/
+def ivCheck (dom : String) (n : Nat) (cfg : WrapCfg) (arg res : Dj) : String :=
+  if constFalse arg.cs then "skip" else
+  let B := (List.range n).map (unaryItv arg.cs)
+  if B.any (·.isEmpty) then "skip" else
+  let storeOpen := dom == "RB"
+  let agrees := fun (strictTest : Bool) =>
+    let M := boxWrap strictTest storeOpen cfg B
+    if M.any (·.isEmpty) then constFalse res.cs || (List.range n).any fun x => (unaryItv res.cs x).isEmpty
+    else !constFalse res.cs && (List.zipWith (fun x m => itvEq m (unaryItv res.cs x)) (List.range n) M).all id
+  if agrees false then "written" else if agrees true then "prefix" else "none"
+
+def judgeWrap (id : String) (dom : String) (n : Nat) (cfg : WrapCfg) (arg res : Elem) : String :=
   let vars := normVars cfg.vars
   let den : Int := 2
   let P := pow2 cfg.w
@@ -269,12 +297,18 @@ def judgeWrap (id : String) (n : Nat) (cfg : WrapCfg) (arg res : Elem) : String 
   let st0 : EnumSt WStat := ⟨{}, 0, false, false, false⟩
   let st := arg.foldl (fun st d =>
     if st.stop then st else enumDj n den isInt winLo winHi special maxPerDim 60000 d leaf st) st0
+  let iv :=
+    if (dom == "RB" || dom == "ZB") && cfg.guard.isNone && !vars.isEmpty then
+      match arg, res with
+      | [a], [r] => " iv=" ++ ivCheck dom n cfg a r
+      | _, _ => ""
+    else ""
   match st.user.fail with
-  | some f => s!"MISMATCH {id} image-lost {f}"
+  | some f => s!"MISMATCH {id} image-lost {f}{iv}"
   | none =>
     let span := (List.zipWith (fun a b => b - a + 1) st.user.qlo st.user.qhi).foldl max 0
     let resEmpty := res.all fun d => !feasible n d.cs
-    s!"ok {id} pts={st.user.pts} imgs={st.user.imgs} exh={if st.truncated || st.clipped then 0 else 1} clipped={if st.clipped then 1 else 0} span={span} resempty={if resEmpty then 1 else 0}"
+    s!"ok {id} pts={st.user.pts} imgs={st.user.imgs} exh={if st.truncated || st.clipped then 0 else 1} clipped={if st.clipped then 1 else 0} span={span} resempty={if resEmpty then 1 else 0}{iv}"
 
 /-! ### drop -/
 
@@ -467,7 +501,7 @@ def judgeLine (line : String) : Option String :=
                   if oo == "w" then .wraps else if oo == "u" then .undefined else .impossible,
                   guard, tokNat thr, ind == "1"⟩
                 let (res, _) := parseElem n (r.drop 1)
-                some (judgeWrap id n cfg arg res)
+                some (judgeWrap id dom n cfg arg res)
               | _ => some s!"skip {id} parse"
             | _ => some s!"skip {id} parse"
           else if kind == "drop" then
